@@ -13,6 +13,7 @@ theorem RepX.ext {h h' : Heap} {fs : Slots} {ex : Extra} (e : Ext h h') (r : Rep
   | imm t => exact hr
   | arr dd => obtain ⟨b, hb1, hb2⟩ := hr; exact ⟨b, hb1, e.get hb2⟩
   | dict items => trivial
+  | deep toks => trivial
 
 theorem LabelOK.ext {h h' : Heap} {c : SCls} {fs : Slots} (e : Ext h h') (r : LabelOK h c fs) :
     LabelOK h' c fs := by
@@ -49,6 +50,7 @@ theorem RepX.frame {lo hi : Nat} {h h' : Heap} {fs : Slots} {ex : Extra} (fr : F
     obtain ⟨b, hb1, hb2⟩ := hr
     exact ⟨b, hb1, fr.keep hb2 (fun _ _ hh => by cases hh)⟩
   | dict items => trivial
+  | deep toks => trivial
 
 theorem LabelOK.frame {lo hi : Nat} {h h' : Heap} {c : SCls} {fs : Slots} (fr : Frame lo hi h h')
     (r : LabelOK h c fs) : LabelOK h' c fs := by
